@@ -30,6 +30,15 @@ def run(chk):
         ("names:latin1", "type G1 struct {\n\tÂge float64 `parquet:\"âge\"`\n\tÜber *bool `parquet:\"über\"`\n}\n\ntype T struct {\n\tÉté int32 `parquet:\"été\"`\n\tÉquipe *G1 `parquet:\"équipe\"`\n\tÑandú string `parquet:\"ñandú\"`\n}\n"),
         ("names:greek-cyrillic", "type T struct {\n\tΩmega int64 `parquet:\"ωmega\"`\n\tЖук *string `parquet:\"жук\"`\n\tPlain bool `parquet:\"plain\"`\n}\n"),
     ]
+    # groups whose concatenated paths spell the same string: meta > data vs metadata; a > bc vs ab > c
+    COLLIDE = [
+        ("names:concat-collision", "type Data struct {\n\tSize int64 `parquet:\"size\"`\n}\n\ntype Meta struct {\n\tData Data `parquet:\"data\"`\n\tKind *string `parquet:\"kind\"`\n}\n\ntype Metadata struct {\n\tSize int32 `parquet:\"size\"`\n\tRatio *float64 `parquet:\"ratio\"`\n}\n\ntype T struct {\n\tMeta Meta `parquet:\"meta\"`\n\tMetadata *Metadata `parquet:\"metadata\"`\n}\n"),
+        ("names:concat-collision-2", "type Bc struct {\n\tX int32 `parquet:\"x\"`\n}\n\ntype A struct {\n\tBc *Bc `parquet:\"bc\"`\n}\n\ntype C struct {\n\tY string `parquet:\"y\"`\n}\n\ntype Ab struct {\n\tC C `parquet:\"c\"`\n}\n\ntype T struct {\n\tA A `parquet:\"a\"`\n\tAb *Ab `parquet:\"ab\"`\n}\n"),
+    ]
+    for k, (nm, body) in enumerate(COLLIDE):
+        sid = "t8%03d" % k
+        items.append((sid, "package %s\n\n%s" % (sid, body), "T"))
+        names[sid] = nm
     skip_model = set()
     for k, (nm, body) in enumerate(NONASCII):
         sid = "t9%03d" % k
